@@ -72,6 +72,10 @@ Inductive point :=
 | PSendEnter | PSendLocked | PSendStarted | PEncodeLocked | PEncodeElementLocked
 | PTokenWriterLocked | PServeIter | PHandlerBefore | PCloseInputEnter.
 
+(* the time given to SetCloseDeadline: in the future, already passed, or the
+   zero time (no deadline: what net.Conn's SetReadDeadline takes it for) *)
+Inductive dmode := DFuture | DPast | DZero.
+
 (* why Serve left its loop *)
 Inductive cause := CNone | CPeerClose | CPeerErr | CBad | CHandler | CReplyClosed | CTimeout | CCtx.
 
@@ -89,7 +93,8 @@ Inductive op :=
 | OSLock | OSUnlock       (* s.stateMutex.Lock() / Unlock() held across steps (only the pinned design of Close does that) *)
 | OStall (b : bool)       (* environment: the peer stops (true) / resumes (false) reading what the session writes *)
 | ORet                    (* return the error register *)
-| OSetDeadline | OFire    (* SetCloseDeadline; the deadline passes *)
+| OSetDeadline (m : dmode) (* SetCloseDeadline(t): t later / t already passed / the zero time *)
+| OFire (j : nat)         (* the deadline that the SetCloseDeadline call of actor j asked for passes *)
 | OPeer (ev : pev)        (* the peer writes *)
 | OAcqIn | ORelIn         (* s.in.Lock() by TokenReader / its Close *)
 | OCloseInput             (* closeInputStream *)
@@ -107,8 +112,14 @@ Inductive op :=
 Record outg := mkO { o_lock : option nat; o_cl : bool; o_buf : list item; o_wire : list item;
                      o_sl : option nat; o_rdy : bool; o_pend : bool }.
 
+(* The close deadline is state that every SetCloseDeadline call REPLACES:
+   i_gen is the call (actor) whose deadline is in force, i_armed says that it
+   lies in the future and has not passed yet, i_passed that it has passed
+   (ghost: read by no operation).  i_rdexp: the connection's read deadline has
+   expired; i_done / i_err: the input context. *)
 Record ing := mkI { i_cl : bool; i_lk : bool; i_q : list pev; i_armed : bool; i_rdexp : bool;
-                    i_done : bool; i_err : err; i_dlsup : bool }.
+                    i_done : bool; i_err : err; i_dlsup : bool;
+                    i_gen : option nat; i_passed : bool }.
 
 (* what an actor is, as far as closing goes (ghost: never read by [exec]) *)
 Inductive role := RPlain | RCloser | RServe.
@@ -157,19 +168,34 @@ Definition o_setrdy (o : outg) (b : bool) : outg :=
 (* ---- input-side primitives ---- *)
 
 Definition i_setq (g : ing) (q : list pev) : ing :=
-  mkI (i_cl g) (i_lk g) q (i_armed g) (i_rdexp g) (i_done g) (i_err g) (i_dlsup g).
+  mkI (i_cl g) (i_lk g) q (i_armed g) (i_rdexp g) (i_done g) (i_err g) (i_dlsup g) (i_gen g) (i_passed g).
 Definition i_setlk (g : ing) (b : bool) : ing :=
-  mkI (i_cl g) b (i_q g) (i_armed g) (i_rdexp g) (i_done g) (i_err g) (i_dlsup g).
-(* SetCloseDeadline: a fresh input context with the deadline, the read deadline of the connection *)
-Definition i_setdeadline (g : ing) : ing :=
-  mkI (i_cl g) (i_lk g) (i_q g) true false false ENil (i_dlsup g).
-(* the deadline passes: the context is done; a transport with deadlines fails the reads *)
-Definition i_fire (g : ing) : ing :=
-  mkI (i_cl g) (i_lk g) (i_q g) false (i_dlsup g) true ECtxDeadline (i_dlsup g).
+  mkI (i_cl g) b (i_q g) (i_armed g) (i_rdexp g) (i_done g) (i_err g) (i_dlsup g) (i_gen g) (i_passed g).
+(* SetCloseDeadline by actor me: a FRESH input context (never derived from the
+   one it replaces, which is cancelled) and the connection's read deadline.
+   A time that has already passed: the context is done at once and reads fail
+   (on a transport with deadlines).  The zero time: no deadline at all. *)
+Definition i_setdeadline (me : nat) (m : dmode) (g : ing) : ing :=
+  match m with
+  | DFuture => mkI (i_cl g) (i_lk g) (i_q g) true false false ENil (i_dlsup g) (Some me) false
+  | DPast => mkI (i_cl g) (i_lk g) (i_q g) false (i_dlsup g) true ECtxDeadline (i_dlsup g) (Some me) true
+  | DZero => mkI (i_cl g) (i_lk g) (i_q g) false false false ENil (i_dlsup g) (Some me) false
+  end.
+(* the deadline asked for by actor j passes: nothing happens unless it is the
+   one in force; then the context is done (a context that was cancelled before
+   keeps its error) and a transport with deadlines fails the reads *)
+Definition i_fire (j : nat) (g : ing) : ing :=
+  match i_gen g with
+  | Some k => if Nat.eqb k j && i_armed g
+              then mkI (i_cl g) (i_lk g) (i_q g) false (i_dlsup g) true
+                       (if i_done g then i_err g else ECtxDeadline) (i_dlsup g) (i_gen g) true
+              else g
+  | None => g
+  end.
 (* closeInputStream: the bit, and cancel (a context that is already done keeps its error) *)
 Definition i_closeinput (g : ing) : ing :=
   mkI true (i_lk g) (i_q g) (i_armed g) (i_rdexp g) true
-      (if i_done g then i_err g else ECtxCanceled) (i_dlsup g).
+      (if i_done g then i_err g else ECtxCanceled) (i_dlsup g) (i_gen g) (i_passed g).
 
 (* ---- code fragments of Serve's exits ---- *)
 
@@ -222,8 +248,8 @@ Definition exec (me : nat) (o : op) (k : list op) (og : outg) (ig : ing) (a : ac
   | OSUnlock => Some (o_setsl og None, ig, a')
   | OStall b => Some (o_setrdy og (negb b), ig, a')
   | ORet => Some (og, ig, set_res a' (Some (a_e a)))
-  | OSetDeadline => Some (og, i_setdeadline ig, a')
-  | OFire => if i_armed ig then Some (og, i_fire ig, a') else None
+  | OSetDeadline m => Some (og, i_setdeadline me m ig, a')
+  | OFire j => Some (og, i_fire j ig, a')
   | OPeer ev => Some (og, i_setq ig (i_q ig ++ [ev]), a')
   | OAcqIn => if i_lk ig then None else Some (og, i_setlk ig true, a')
   | ORelIn => Some (og, i_setlk ig false, a')
@@ -267,7 +293,7 @@ Definition exec (me : nat) (o : op) (k : list op) (og : outg) (ig : ing) (a : ac
 Definition reads_state (o : op) : bool :=
   match o with
   | OChk | OTest | OGEmit _ | OGFlush | OMark | OHEmit _ _
-  | OSetDeadline | OCloseInput | OProbe | OServeTop | OServeRead => true
+  | OSetDeadline _ | OCloseInput | OProbe | OServeTop | OServeRead => true
   | _ => false
   end.
 
@@ -309,8 +335,8 @@ Inductive kind :=
 | KEncodeNF (n : nat)         (* Session.Encode of an xmlstream.WriterTo: not flushed (internal/marshal) *)
 | KEncodeElement (n : nat)
 | KTokenWriter (n : nat)      (* TokenWriter(); EncodeToken...; Close() *)
-| KSetDeadline (past : bool)  (* SetCloseDeadline; past: the deadline has already passed *)
-| KTimer                      (* the deadline passes *)
+| KSetDeadline (m : dmode)    (* SetCloseDeadline with a later time, a time already passed, or the zero time *)
+| KTimer (j : nat)            (* the deadline asked for by actor j passes *)
 | KPeer (evs : list pev)
 | KServe
 | KProbe
@@ -339,8 +365,8 @@ Definition prog_of (k : kind) : list op :=
   | KEncodeElement n => [OLock; OYield PEncodeElementLocked] ++ chk encodeelement_guarded ++
                         [OEmit (IElem n); OFlush; OUnlock; ORet]
   | KTokenWriter n => [OLock; OYield PTokenWriterLocked; tw_emit (IElem n); tw_flush; OUnlock; ORet]
-  | KSetDeadline past => OSetDeadline :: (if past then [OFire] else []) ++ [ORet]
-  | KTimer => [OFire; ORet]
+  | KSetDeadline m => [OSetDeadline m; ORet]
+  | KTimer j => [OFire j; ORet]
   | KPeer evs => map OPeer evs ++ [ORet]
   | KServe => [OServeTop]
   | KProbe => [OProbe; ORet]
@@ -356,7 +382,7 @@ Definition actor_of (k : kind) : actor := mkA (prog_of k) ENil None false CNone 
 
 Definition init (dlsup : bool) (ks : list kind) : state :=
   mkS (mkO None false [] [] None true false)
-      (mkI false false [] false false false ENil dlsup)
+      (mkI false false [] false false false ENil dlsup None false)
       (fun i => match nth_error ks i with Some k => actor_of k | None => idle end).
 
 (* ---- static discipline of a program with respect to the output lock ----
@@ -375,11 +401,11 @@ Fixpoint safe (h c : bool) (code : list op) : bool :=
   | [] => negb h
   | o :: k =>
       match o with
-      | OYield _ | OSetDeadline | OPeer _ | ORelIn => safe h c k
+      | OYield _ | OSetDeadline _ | OPeer _ | ORelIn => safe h c k
       (* neither the state mutex nor the environment's switch is touched by a holder of the output lock *)
       | OSLock | OSUnlock | OStall _ => negb h && safe h c k
       (* operations that can block are not performed while holding the output lock *)
-      | OFire | OAcqIn | OCloseInput | OProbe => negb h && safe h c k
+      | OFire _ | OAcqIn | OCloseInput | OProbe => negb h && safe h c k
       | OLock => negb h && safe true false k
       | OUnlock => h && safe false false k
       | OChk | OTest => h && has_unlock k && safe true true k
